@@ -13,15 +13,17 @@ import Asn1Verif.Uper.Types
     * which component kinds are wrapped as open types inside the extension part (`with_buffer`),
     * the extension bit = presence of the FIRST extension addition, a later present addition after
       an absent first one is refused with `ExtensionFieldsInconsistent`,
-    * an open type is the unconstrained OCTET STRING of the padded content, an empty content has
-      length 0 and no octet,
+    * an open type is the unconstrained OCTET STRING of the padded content, an empty content is
+      one zero octet (X.691 11.1, since fix bbce045),
     * the fragment size announced by a length determinant is ignored for SEQUENCE OF and the
       restricted strings (≥ 16K items are written after a fragment header),
     * the reader does not narrow its window for an open type, only moves the cursor to the
       announced end afterwards (clamped to the input length),
-    * a reader whose type knows fewer additions than were sent does not skip the unknown payloads.
+    * a reader whose type knows fewer additions than were sent skips the unknown payloads by their
+      length determinants (since fix 91e31d8).
   It is tied to the code by the `uper` correspondence stream over the compiled zoo (valid values,
-  constraint violations, schema-version pairs, hostile bit strings).
+  constraint violations, schema-version pairs, hostile bit strings) and by the refinement theorems
+  of Props/Scope.lean from the faithful scope machine Uper/Scope.lean.
 -/
 namespace Asn1Verif.Uper
 open Asn1Verif Outcome Per
